@@ -356,8 +356,13 @@ def _define_line(lines, gap):
     return lines[gap[0]][0] == '#' and gap[1] > 0
 
 
+def _directive_like_line_in_comment(ins):
+    return re.search(r'(?m)^[ \t]*#[ \t]*(?:line|\d+)\b', ins[ins.find('/*') + 2:]) is not None
+
+
 # known-finding classes (see known_findings.jsonl)
 TAGS = [
+    ('directive_like_line_inside_block_comment', lambda base, lines, gap, kind, ins: kind == 'block' and '\n' in ins and _directive_like_line_in_comment(ins)),
     ('newline_in_block_comment_inside_define', lambda base, lines, gap, kind, ins: kind == 'block' and _define_line(lines, gap) and gap[1] == 3 and '\n' in ins),
     ('continuation_between_define_and_name', lambda base, lines, gap, kind, ins: kind == 'continuation' and _define_line(lines, gap) and gap[1] == 2),
 ]
